@@ -328,6 +328,8 @@ def part_cross(ctx):
         ('non-contiguous grouping', lambda: M.ListGrader(answers=[['a', 'b'], ['c', 'd']], subgraders=M.ListGrader(subgraders=S()), grouping=[1, 1, 3, 3])),
         ('grouping vs subgraders', lambda: M.ListGrader(answers=[['a', 'b'], 'c'], subgraders=[M.ListGrader(subgraders=S()), S(), S()], ordered=True, grouping=[1, 1, 2])),
         ('multi-item group without ListGrader', lambda: M.ListGrader(answers=['a', 'b'], subgraders=S(), grouping=[1, 1, 2, 2])),
+        ('fewer answers than groups', lambda: M.ListGrader(answers=[['a', 'b'], ['c', 'd']], subgraders=M.ListGrader(subgraders=S()), grouping=[1, 1, 2, 2, 3, 3])),
+        ('more answers than groups', lambda: M.ListGrader(answers=[['a', 'b'], ['c', 'd'], ['e', 'f']], subgraders=M.ListGrader(subgraders=S()), grouping=[1, 1, 2, 2], ordered=False)),
         ('unequal groups unordered', lambda: M.ListGrader(answers=[['a', 'b'], ['c']], subgraders=M.ListGrader(subgraders=S()), grouping=[1, 1, 2])),
         ('nested delimiters equal', lambda: M.SingleListGrader(subgrader=M.SingleListGrader(subgrader=S(), delimiter=','), delimiter=',')),
         ('variable / constant collision', lambda: M.FormulaGrader(variables=['x'], user_constants={'x': 1})),
